@@ -1080,7 +1080,7 @@ package mocrelay
 //@   serves C03 C15
 //@   requires filter != nil
 //@   pure
-//@   ensures[C03] result == !(filter.IDs != nil || filter.Authors != nil || filter.Kinds != nil || len(filter.Tags) > 0)
+//@   ensures result == !(filter.IDs != nil || filter.Authors != nil || filter.Kinds != nil || len(filter.Tags) > 0)
 
 //@ func eventCacheEvsIndex.keysFromReqFilter
 //@   serves C03 C15
@@ -1305,6 +1305,14 @@ package mocrelay
 //@   requires m != nil && held(m.mu) == 0
 //@   writes lock(m.mu)
 //@   ensures held(m.mu) == 0 && result == m.m[k]
+
+//@ func safeMap.Loop
+//@   serves C15
+//@   opt inst.K=string
+//@   opt inst.V=*subscriber
+//@   requires m != nil && held(m.mu) == 0
+//@   writes lock(m.mu)
+//@   ensures[C15] held(m.mu) == 0
 
 //@ func subscribers.UnsubscribeAll
 //@   serves C07 C13
